@@ -54,20 +54,26 @@ def point_is_feasible(prob, eps=1e-5):
 
 
 class VirtualClock:
-    """Stands in for the `datetime` module inside matchingproblems.solver.solver."""
+    """Stands in for the `datetime` module inside matchingproblems.solver.solver:
+    everything is delegated to the real module except datetime.now(), which
+    returns virtual time (still a real datetime object, so astimezone(),
+    strftime() and arithmetic behave as usual)."""
 
     def __init__(self):
         self.t = 0.0
-        self.base = _dt.datetime(2030, 1, 1, 0, 0, 0)
+        self.base = _dt.datetime(2030, 1, 1, 12, 0, 0)
         clock = self
 
-        class _DT:
-            @staticmethod
-            def now(tz=None):
+        class _DT(_dt.datetime):
+            @classmethod
+            def now(cls, tz=None):
                 clock.t += 0.001   # every observation costs 1 ms of virtual time
-                return clock.base + _dt.timedelta(seconds=clock.t)
+                d = clock.base + _dt.timedelta(seconds=clock.t)
+                return d if tz is None else d.astimezone(tz)
         self.datetime = _DT
-        self.timedelta = _dt.timedelta
+
+    def __getattr__(self, name):
+        return getattr(_dt, name)
 
     def advance(self, s):
         self.t += s
